@@ -15,6 +15,7 @@ import (
 	"strings"
 
 	"github.com/taurusgroup/multi-party-sig/internal/zzverif/drv"
+	"github.com/taurusgroup/multi-party-sig/internal/zzverif/faults"
 	"github.com/taurusgroup/multi-party-sig/internal/zzverif/sess"
 	"github.com/taurusgroup/multi-party-sig/internal/zzverif/vkit"
 	"github.com/taurusgroup/multi-party-sig/pkg/party"
@@ -101,6 +102,110 @@ func contextBinding(res *vkit.Result, n *int) {
 					}
 				}
 				net.DeliverAt(0)
+			}
+		}
+	}
+}
+
+// commitmentCopied: FROST key generation in which party C copies party A's chain-key COMMITMENT into its own
+// round-2 broadcast (keeping its own polynomial and proof) and, once A has opened, repeats A's opening as its
+// own in round 3.  A commitment is bound to its author: the opening must be refused under C's name, so no honest
+// party may finish (an honest party that finishes has let C cancel A's contribution to the chain key).
+func commitmentCopied(res *vkit.Result, n *int) {
+	for _, tap := range []bool{false, true} {
+		for _, ln := range []int{1, 40} {
+			*n++
+			if !vkit.Mine(*n) {
+				continue
+			}
+			name := "frost-keygen"
+			if tap {
+				name = "frost-keygen-taproot"
+			}
+			ids := idShape(ln)
+			A, C := ids[0], ids[2]
+			sp := sess.FrostKeygen(ids, 1, tap)
+			sp.SessionID = []byte("sid")
+			net, startErr := sess.Build(sp, *vkit.Seed, "c09copy")
+			if len(startErr) > 0 {
+				res.Hard(fmt.Sprintf("commitment-copied: cannot start %s: %v", name, startErr))
+				continue
+			}
+			res.Case(fmt.Sprintf("binding|%s|ids=%d|commitment-and-opening-copied", name, ln))
+			field := func(id party.ID, rnd int, f string) interface{} {
+				for _, m := range net.Parties[id].Sent {
+					if int(m.RoundNumber) == rnd && m.Broadcast {
+						if tree, err := faults.Decode(m.Data); err == nil {
+							if mm, ok := tree.(map[interface{}]interface{}); ok {
+								return mm[f]
+							}
+						}
+					}
+				}
+				return nil
+			}
+			rewrite := func(data []byte, set map[string]interface{}) []byte {
+				tree, err := faults.Decode(data)
+				if err != nil {
+					return data
+				}
+				for f, v := range set {
+					if v == nil {
+						return data
+					}
+					if nt, ok := faults.Set(tree, "/"+f, v, false); ok {
+						tree = nt
+					}
+				}
+				return faults.Encode(tree)
+			}
+			net.Flush()
+			applied := 0
+			// C's own copy of its round-2 broadcast enters its echo hash: keep it consistent with what it sends
+			faults.RewriteOwnBroadcast(net.Parties[C].H, 2, C, func(d []byte) []byte {
+				return rewrite(d, map[string]interface{}{"Commitment": field(A, 2, "Commitment")})
+			})
+			for steps := 0; len(net.Queue) > 0 && steps < 10000; steps++ {
+				// C is rushing: its round-3 broadcast is held back until A's is out
+				pick := 0
+				for i, d := range net.Queue {
+					if d.M.From == C && d.M.Broadcast && d.M.RoundNumber == 3 && field(A, 3, "C_l") == nil {
+						continue
+					}
+					pick = i
+					break
+				}
+				d := net.Queue[pick]
+				net.Queue = append(append([]drv.Delivery{}, net.Queue[:pick]...), net.Queue[pick+1:]...)
+				m := d.M
+				if m.From == C && m.Broadcast && m.RoundNumber == 2 {
+					m = drv.CloneMsg(m)
+					m.Data = rewrite(m.Data, map[string]interface{}{"Commitment": field(A, 2, "Commitment")})
+					applied++
+				}
+				if m.From == C && m.Broadcast && m.RoundNumber == 3 {
+					m = drv.CloneMsg(m)
+					m.Data = rewrite(m.Data, map[string]interface{}{"C_l": field(A, 3, "C_l"), "Decommitment": field(A, 3, "Decommitment")})
+					applied++
+				}
+				net.Parties[d.To].Deliver(m)
+				net.Flush()
+			}
+			if applied < 4 {
+				res.Hard(fmt.Sprintf("commitment-copied %s: the deviation could not be applied (%d rewrites)", name, applied))
+				continue
+			}
+			for _, id := range ids {
+				if id == C {
+					continue
+				}
+				if net.Parties[id].Status() == "done" {
+					res.Violate(fmt.Sprintf("context-binding|%s|commitment-opened-under-another-name", name),
+						fmt.Sprintf("%s with %d-byte identifiers: %s copied %s's chain-key commitment into its own round-2 broadcast and repeated %s's opening as its own in round 3; honest party %s finished the key generation (the opening was accepted under the wrong name, and the two contributions cancel in the chain key)",
+							name, ln, clipIDs([]string{string(C)}), clipIDs([]string{string(A)}), clipIDs([]string{string(A)}), clipIDs([]string{string(id)})),
+						map[string]interface{}{"binding": name + "/commitment-copied", "ids": ln})
+					break
+				}
 			}
 		}
 	}
